@@ -239,6 +239,13 @@ def generate(ctx):
     for _ in range(ctx.scale(3000, 100000)):
         n = r.randrange(1, 12)
         ctx.add('parse_json_path %s' % gen.hexarg(bytes(r.choice(alphabet) for _ in range(n))), kind='soup')
+    # escapes inside plain names, quoted names and string literals, every truncation
+    for nm in common.escape_forms(ctx, ctx.scale(150, 4000)):
+        for t in ('$.' + nm, '$."' + nm + '"', '$.a.' + nm + '[0]', '$?(@.a == "' + nm + '")', '$["' + nm + '"]', nm + '.b'):
+            t = t.encode()
+            ctx.add('parse_json_path %s' % gen.hexarg(t), kind='escape')
+            for i in range(max(0, len(t) - 9), len(t)):
+                ctx.add('parse_json_path %s' % gen.hexarg(t[:i]), kind='escape-prefix')
     for t in [b'$."abc', b'$["abc', b'$?(@.a == "abc', b'"', b'$."', b'$.a"', b'$."\\', b'$."\\u12', b'$."\\u{12', b'$?(@.a == 1e)', b'$?(@.a == .5e)']:
         ctx.add('parse_json_path %s' % gen.hexarg(t), kind='unterminated')
 
